@@ -295,10 +295,10 @@ instance (F : SFam) (a : Nat) : Decidable (SFree F a) := by unfold SFree; infer_
 instance (F : SFam) (op : SOp) : Decidable (SAdmitted F op) := by
   cases op <;> unfold SAdmitted <;> infer_instance
 
-theorem perm_of_mem {α} [DecidableEq α] {l : List α} {a : α} (h : a ∈ l) : l.Perm (a :: l.erase a) :=
+theorem perm_of_mem {α} [BEq α] [LawfulBEq α] {l : List α} {a : α} (h : a ∈ l) : l.Perm (a :: l.erase a) :=
   List.perm_cons_erase h
 
-theorem perm_of_mem2 {α} [DecidableEq α] {l : List α} {a b : α} (ha : a ∈ l) (hb : b ∈ l) (hne : b ≠ a) :
+theorem perm_of_mem2 {α} [BEq α] [LawfulBEq α] {l : List α} {a b : α} (ha : a ∈ l) (hb : b ∈ l) (hne : b ≠ a) :
     l.Perm (a :: b :: (l.erase a).erase b) :=
   (List.perm_cons_erase ha).trans (List.Perm.cons a (List.perm_cons_erase ((List.mem_erase_of_ne hne).mpr hb)))
 
